@@ -41,15 +41,22 @@ var solverTable = []solverCfg{
 
 func runSolver(ctx context.Context, sc solverCfg, file string, secs, seed int) (string, string, float64) {
 	t0 := time.Now()
-	a := sc.args(file, secs, seed)
-	cctx, cancel := context.WithTimeout(ctx, time.Duration(secs+2)*time.Second)
+	// The budget is CPU time (ulimit -t), so that a verdict does not depend on how loaded the machine is; the
+	// solvers' own wall-clock limits and the context deadline are generous backstops only.
+	a := sc.args(file, secs*wallFactor, seed)
+	cctx, cancel := context.WithTimeout(ctx, time.Duration(secs*wallFactor+5)*time.Second)
 	defer cancel()
-	cmd := exec.CommandContext(cctx, a[0], a[1:]...)
+	sh := append([]string{"-c", fmt.Sprintf("ulimit -t %d; exec \"$0\" \"$@\"", secs+1)}, a...)
+	cmd := exec.CommandContext(cctx, "/bin/sh", sh...)
 	var buf bytes.Buffer
 	cmd.Stdout = &buf
 	cmd.Stderr = &buf
 	cmd.Run()
 	s := buf.String()
+	if ctx.Err() != nil {
+		// the race was decided by another solver and this process was cancelled (its script may already be removed)
+		return "unknown", s, time.Since(t0).Seconds()
+	}
 	first := strings.TrimSpace(strings.SplitN(strings.TrimSpace(s), "\n", 2)[0])
 	if first != "sat" && first != "unsat" {
 		if strings.Contains(first, "error") || strings.Contains(first, "Error") {
@@ -115,6 +122,9 @@ func solvePortfolio(script string, secs, seed int) SolveResult {
 }
 
 var raceSem = make(chan struct{}, 4)
+
+// wallFactor: wall-clock backstop as a multiple of the CPU budget.
+const wallFactor = 6
 
 var solverErrors sync.Map // malformed scripts are machinery errors, never violations
 
